@@ -5,7 +5,7 @@
     implementation on every check run (Model/HeaderRun.v, [c07_step] is the
     very function the histories below are made of). *)
 From Coq Require Import ZArith List Bool.
-From Hts Require Import Base.Prim Model.Header Model.HeaderRun Proofs.HeaderInv Proofs.HeaderWorld Proofs.HeaderHist Proofs.HeaderMerge Proofs.HeaderText.
+From Hts Require Import Base.Prim Model.Header Model.HeaderRun Proofs.HeaderInv Proofs.HeaderWorld Proofs.HeaderHist Proofs.HeaderMerge Proofs.HeaderText Proofs.HeaderNum Proofs.HeaderFields Proofs.HeaderRT Proofs.HeaderBin.
 Import ListNotations.
 Open Scope Z_scope.
 
@@ -43,25 +43,51 @@ Theorem merge_links :
 Proof. exact merge_headers_spec. Qed.
 Print Assumptions merge_links.
 
-(** Text round trip, lexical half only (hence "partial"): the text MarshalText
-    produces for a header is the rendering of the document [doc_of] (one record
-    head and its "XX:value" fields per line), and, when heads and fields are
-    free of TAB, LF and CR, splitting it the way UnmarshalText does (lines at
-    LF, optional CR stripped, fields at TAB) gives back exactly these heads
-    and fields.  Missing for header_text_roundtrip / header_binary_roundtrip:
-    that the five line parsers rebuild the payload from the fields
-    (atoi (dec n) = n, hex_decode (hex_of s) = s, the date/URI laws) and that
-    the binary reference records are equal_refs to the text ones. *)
-Theorem header_text_roundtrip_partial :
-  forall w h rs gs ps,
-    objs (w_r w) (t_items (h_R h)) = Some rs -> objs (w_g w) (t_items (h_G h)) = Some gs ->
-    objs (w_p w) (t_items (h_P h)) = Some ps ->
-    (forall hd fs, In (hd, fs) (doc_of h rs gs ps) -> clean hd /\ forall f, In f fs -> clean f) ->
-    exists text, marshal_text w h = Ok text /\
-      map (fun l => split TAB (strip_cr l)) (split LF text)
-      = map (fun hf => fst hf :: snd hf) (doc_of h rs gs ps) ++ [[[]]].
-Proof. exact marshal_text_lex. Qed.
-Print Assumptions header_text_roundtrip_partial.
+(** Text round trip.  For any date and URI parsers, any world satisfying HInv
+    and any header [hd] of it whose values are printable ([WFH]: no TAB, LF or
+    CR in values (comments may contain TABs), reference lengths and insert
+    sizes in range, checksums of 16 bytes, dates and URIs canonical — i.e.
+    [parse d = Some d], which is the law fmt (parse (fmt x)) = fmt x for the
+    opaque libraries —, non-standard tags distinct and not standard ones, an
+    @HD field only together with a version): NewHeader(MarshalText(hd), nil)
+    succeeds, HInv holds, and the new header exposes the same values
+    ([view]: version, SO, GO, other @HD tags, comments, and for references,
+    read groups and programs the lists of names with all fields, in order);
+    hence it marshals to the same text and the same binary. *)
+Theorem header_text_roundtrip :
+  forall (parse_time parse_uri : str -> option str) w h hd text,
+    WInv w -> nth_error (w_h w) h = Some hd -> WFH parse_time parse_uri w hd ->
+    marshal_text w hd = Ok text ->
+    exists w' hd', new_header parse_time parse_uri w (Some text) [] = Ok (w', 0) /\ WInv w' /\
+      nth_error (w_h w') (length (w_h w)) = Some hd' /\ view w' hd' = view w hd /\
+      marshal_text w' hd' = Ok text /\ encode_binary w' hd' = encode_binary w hd.
+Proof. exact text_roundtrip. Qed.
+Print Assumptions header_text_roundtrip.
+
+(** Binary round trip.  Under the same conditions, and when the sizes fit the
+    int32 fields of the BAM header block, DecodeBinary into a fresh header of
+    the bytes EncodeBinary wrote succeeds, HInv holds, the new header exposes
+    the same values — including the non-standard @SQ tags, which the binary
+    reference records do not carry and which the replacement path of
+    AddReference now inherits — and it encodes to the same text and the same
+    bytes. *)
+Theorem header_binary_roundtrip :
+  forall (parse_time parse_uri : str -> option str) w h hd text rs b,
+    WInv w -> nth_error (w_h w) h = Some hd -> WFH parse_time parse_uri w hd ->
+    marshal_text w hd = Ok text -> objs (w_r w) (t_items (h_R hd)) = Some rs -> fits_int32 text rs ->
+    encode_binary w hd = Ok b ->
+    exists w' hd', decode_binary parse_time parse_uri w b = Ok (w', 0) /\ WInv w' /\
+      nth_error (w_h w') (length (w_h w)) = Some hd' /\ view w' hd' = view w hd /\
+      marshal_text w' hd' = Ok text /\ encode_binary w' hd' = Ok b.
+Proof. exact binary_roundtrip. Qed.
+Print Assumptions header_binary_roundtrip.
+
+(** The codecs inside the text: decimal and hexadecimal. *)
+Theorem header_number_codecs :
+  (forall n, - 2 ^ 63 <= n <= 2 ^ 63 - 1 -> atoi (dec n) = Some n) /\
+  (forall s, bytes s -> (length s <= 16)%nat -> hex_decode 0 (hex_of s) [] = Ok s).
+Proof. exact number_codecs. Qed.
+Print Assumptions header_number_codecs.
 
 (** What WInv says: in every header, for references, read groups and
     programs alike, the i-th listed item is owned by the header and has id i,
@@ -117,3 +143,26 @@ Example merge_example :
   | _ => False
   end.
 Proof. vm_compute. split; reflexivity. Qed.
+
+(** Non-vacuity of the round trips: a header with version, a reference carrying
+    a checksum, AS and a non-standard tag, a read group and a comment with a
+    TAB is read back from its own binary with the same text. *)
+Example roundtrip_example :
+  let id := fun s : str => Some s in
+  let text := [64;72;68;9;86;78;58;49;46;53;9;83;79;58;117;110;107;110;111;119;110;10; 64;83;81;9;83;78;58;65;9;76;78;58;49;48;9;65;83;58;120;9;88;65;58;121;10;
+               64;82;71;9;73;68;58;66;9;80;73;58;45;49;10; 64;67;79;9;97;9;98;10] in
+  match new_header id id world0 (Some text) [] with
+  | Ok (w, 0) =>
+    match nth_error (w_h w) 0 with
+    | Some hd => marshal_text w hd = Ok text /\
+                 match encode_binary w hd with
+                 | Ok b => match decode_binary id id w b with
+                           | Ok (w', 0) => match nth_error (w_h w') 1 with
+                                           | Some hd' => marshal_text w' hd' = Ok text /\ encode_binary w' hd' = Ok b
+                                           | None => False end
+                           | _ => False end
+                 | _ => False end
+    | None => False end
+  | _ => False
+  end.
+Proof. vm_compute. repeat split; reflexivity. Qed.
